@@ -2,6 +2,13 @@
 """Writes seeded/<ID>-<X>/meta.json from the sub-agent's agent_meta.json, my notes below and seeded/matrix.tsv."""
 import json,os,glob
 NOTES={
+ "C03-H":"sixth (mini) round, one change per agent; caught at once",
+ "C11-H":"sixth (mini) round; caught at once (visibility-only edits are among C11's item edits)",
+ "C15-H":"sixth (mini) round; caught at once",
+ "C09-H":"sixth (mini) round; same root cause as C19-G (alias stack not popped), produced independently; caught at once by then",
+ "C05-H":"sixth (mini) round; first missed (type aliases were never imported unqualified); caught since aliases are imported like types, also under another name",
+ "C18-H":"sixth (mini) round; first missed (label sets only); caught since the shadowing family: a name bound twice with different known types must be offered once, described as its innermost binding",
+
  "C10-G":"fifth round; a cancellation defect (syntax_tree outside the cancellation guard): C10's sweeps are single-threaded; C12 reports it (SyntaxTree panics while the workspace is being changed)",
  "C11-F":"fifth round; needs a cancellation in the middle of type inference and a change that does not touch the function's file: C11's histories are single-threaded; C12 reports it since the dependency-only changes (answers of the untouched files must stay what they were)",
  "C12-F":"fifth round; first missed (all versions had the same, empty diagnostics; readers rarely sat between their last database access and handing in the answer); caught since version-dependent diagnostics in every module and large-module schedules whose readers ask for diagnostics only",
